@@ -161,7 +161,7 @@ func init() {
 			r.Fail(core.Failure{Key: "C01 parser/quoted-header-layout/vacuous", What: "the parser refused every layout, including the plain ones", Scenario: core.JSON(map[string]any{"parser_layout": PScn{IHL: 5, Opt: "nop", Proto: 17, Quoted: 8}})})
 		}
 	}
-	F.ExtraReplay = func(scn json.RawMessage) (string, bool, bool) {
+	F.ExtraReplay = func(scn json.RawMessage, _ []int) (string, bool, bool) {
 		var w struct {
 			P *PScn `json:"parser_layout"`
 		}
